@@ -456,6 +456,15 @@ func cliOracleC10(r *Rng, n int, thorough bool, seeds []string) *OracleResult {
 			res.fail(Failure{Oracle: "c10", Input: line, What: w, Class: class})
 		}
 	}
+	for _, v6 := range []bool{false, true} {
+		line := fmt.Sprintf("write-error-then-same-id v6=%v", v6)
+		cliNoteLine(line)
+		res.Evaluations++
+		res.Tags["write-error-then-same-id"]++
+		if w := cliWriteErrorReuseProbe(v6); w != "" {
+			res.fail(Failure{Oracle: "c10", Input: line, What: w, Class: "id-not-released-after-write-error"})
+		}
+	}
 	for i := 0; i < n; i++ {
 		sc, tags := cliGenMulti(r.Fork(), i%2 == 1)
 		run(sc, tags)
